@@ -201,6 +201,33 @@ def execute(ctx, case: dict) -> None:
                     if diff:
                         ctx.violation(case, "a live object re-parsed through its line setter exports different data than a new object",
                                       {"rendered": r, "difference": diff})
+    if native and cls_name in ("Port", "Ace", "AceGroup", "Acl") and "port_nr" in kwargs:
+        # the numeric switch assigned on a live object that was built (and rendered) with the other setting:
+        # text and data must equal those of an object built with the final setting
+        try:
+            alt = _build(cls_name, text, dict(kwargs, port_nr=not kwargs["port_nr"]))
+            _ = _line(alt)
+            alt.port_nr = kwargs["port_nr"]
+            ctx.count("switch_assigned_on_live_object")
+            if _line(alt) != r:
+                ctx.violation(case, "an object switched to this port_nr setting renders differently than one built with it",
+                              {"built": r, "switched": _line(alt)})
+        except (ValueError, TypeError, AttributeError):
+            pass
+    if native and cls_name == "Ace" and kwargs.get("type") != "standard" and " eq " in r:
+        # ports removed through the sub-object, then the entry's own text assigned to it again: a re-parse like any other
+        try:
+            live = _build(cls_name, r, dict(kwargs))
+            if live.dstport.operator:
+                live.dstport.line = ""
+                live.line = live.line
+                again = _build(cls_name, live.line, dict(kwargs)).line
+                ctx.count("self_assignment_after_subobject_edit")
+                if again != live.line:
+                    ctx.violation(case, "after an edit through a sub-object and assigning the entry's own text, the text is not a fixed point",
+                                  {"text": live.line, "re-parsed": again})
+        except (ValueError, TypeError):
+            pass
     if cls_name in ("acls", "addrgroups", "aces"):
         ctx.count("config_level_judged")
         if cls_name != "aces" and len(o1) != case.get("n_objects", len(o1)):
